@@ -12,6 +12,9 @@ import Mathlib.Data.Finset.Max
 import Mathlib.Data.Finset.Image
 import Mathlib.Algebra.Order.Field.Basic
 import Mathlib.Algebra.BigOperators.Field
+import Mathlib.Data.Fin.VecNotation
+import Mathlib.Tactic.FinCases
+import Mathlib.Tactic.NormNum.Basic
 
 namespace SLV.C05
 open SLV Scalar SLV.Props.C09
@@ -596,4 +599,137 @@ theorem wprop_eq_zero (hall : ∀ x, |maxUyx cb cu ay x| ≤ f.eps) : wprop f cb
 theorem eps_lt_quarter (f : Fmt) : f.eps < 1 / 4 := by
   cases f <;> norm_num [Fmt.eps, Fmt.mant]
 
+/-! ### two-valued domains (used by the witness below) -/
+
+theorem vmin_two (g : Fin 2 → ℚ) : vmin g = min (g 0) (g 1) := by
+  symm
+  apply vmin_unique (by norm_num)
+  · intro i; fin_cases i
+    · exact min_le_left _ _
+    · exact min_le_right _ _
+  · rcases min_choice (g 0) (g 1) with e | e
+    · exact ⟨0, e⟩
+    · exact ⟨1, e⟩
+
+theorem vmax_two (g : Fin 2 → ℚ) : vmax g = max (g 0) (g 1) := by
+  symm
+  apply vmax_unique (by norm_num)
+  · intro i; fin_cases i
+    · exact le_max_left _ _
+    · exact le_max_right _ _
+  · rcases max_choice (g 0) (g 1) with e | e
+    · exact ⟨0, e⟩
+    · exact ⟨1, e⟩
+
+theorem foldMin_two (t : Fin 2 → ℚ) (c : ℚ) : foldMin t c = min (min c (t 0)) (t 1) := by
+  simp [foldMin, List.finRange_succ]
+
 end SLV.C05
+
+/-! ### witness: below the guard band (`0 < ay y ≤ ε`) the inverted opinion is not well-formed -/
+
+namespace SLV.C05.Witness
+open SLV Scalar SLV.Props.C09 SLV.C05
+open SLV.C04 (Pc condTab condTab_get)
+
+def cb : Fin 2 → Fin 2 → ℚ := ![![0, 1/2], ![3/4, 1/4]]
+def cu : Fin 2 → ℚ := ![1/2, 0]
+def ax : Fin 2 → ℚ := ![1/2, 1/2]
+def ay : Fin 2 → ℚ := ![1/16777216, 16777215/16777216]
+
+theorem hyp : InvHyp cb cu ax ay := by
+  constructor <;> simp [cb, cu, ax, ay, Fin.sum_univ_two, Fin.forall_fin_succ] <;> norm_num
+
+theorem eps32 : Fmt.eps .f32 = 1 / 8388608 := by norm_num [Fmt.eps, Fmt.mant]
+
+theorem P00 : Pc cb cu ay 0 0 = 1 / 33554432 := by simp [Pc, cb, cu, ay]; norm_num
+theorem P01 : Pc cb cu ay 0 1 = 33554431 / 33554432 := by simp [Pc, cb, cu, ay]; norm_num
+theorem P10 : Pc cb cu ay 1 0 = 3 / 4 := by simp [Pc, cb, cu, ay]
+theorem P11 : Pc cb cu ay 1 1 = 1 / 4 := by simp [Pc, cb, cu, ay]
+
+theorem uyx0 : uyx .f32 cb cu ay 0 = 1 := by
+  unfold uyx Props.C09.uhat
+  rw [foldMin_two]
+  have c0 : cand .f32 (cb 0) ay (cu 0) 0 = 1 := by
+    unfold cand; rw [if_pos]; rw [eps32]; simp [ay]; norm_num [abs_of_pos]
+  have c1 : cand .f32 (cb 0) ay (cu 0) 1 = (33554431 / 33554432) / (16777215/16777216) := by
+    unfold cand; rw [if_neg]
+    · rw [← P01]; simp [Pc, ay]
+    · rw [eps32]; simp [ay]; norm_num [abs_of_pos]
+  rw [c0, c1]; norm_num
+
+
+theorem uyx1 : uyx .f32 cb cu ay 1 = 4194304 / 16777215 := by
+  unfold uyx Props.C09.uhat
+  rw [foldMin_two]
+  have c0 : cand .f32 (cb 1) ay (cu 1) 0 = 1 := by
+    unfold cand; rw [if_pos]; rw [eps32]; simp [ay]; norm_num [abs_of_pos]
+  have c1 : cand .f32 (cb 1) ay (cu 1) 1 = (1 / 4) / (16777215/16777216) := by
+    unfold cand; rw [if_neg]
+    · rw [← P11]; simp [Pc, ay]
+    · rw [eps32]; simp [ay]; norm_num [abs_of_pos]
+  rw [c0, c1]; norm_num
+
+theorem maxUyx0 : maxUyx cb cu ay 0 = 1 / 2 := by
+  unfold maxUyx
+  rw [vmin_two]
+  simp only [P00, P01]
+  simp [ay]; norm_num
+
+theorem maxUyx1 : maxUyx cb cu ay 1 = 4194304 / 16777215 := by
+  unfold maxUyx
+  rw [vmin_two]
+  simp only [P10, P11]
+  simp [ay]; norm_num
+
+/-- the weighted proportional uncertainty exceeds one -/
+theorem wprop_val : wprop .f32 cb cu ay = 37748734 / 20971519 := by
+  unfold wprop weightedU weights uyxSum
+  rw [Fin.sum_univ_two, Fin.sum_univ_two, uyx0, uyx1, maxUyx0, maxUyx1, eps32]
+  norm_num [abs_of_pos]
+
+theorem not_zcol1 : ¬ zcol .f32 cb cu ay 1 := by
+  intro hz
+  have := hz 1
+  rw [P11, eps32] at this
+  norm_num [abs_of_pos] at this
+
+theorem irrel1 : irrel cb cu ay 1 = 8388609 / 33554432 := by
+  unfold irrel
+  rw [vmax_two, vmin_two]
+  simp only [P01, P11]
+  norm_num
+
+theorem temp10 : temp .f32 cb cu ax ay 1 0 = 67108862 / 41943039 := by
+  unfold temp
+  rw [if_neg not_zcol1]
+  unfold qy
+  rw [Fin.sum_univ_two, P01, P11]
+  simp [ax]; norm_num
+
+theorem temp11 : temp .f32 cb cu ax ay 1 1 = 16777216 / 41943039 := by
+  unfold temp
+  rw [if_neg not_zcol1]
+  unfold qy
+  rw [Fin.sum_univ_two, P01, P11]
+  simp [ax]; norm_num
+
+theorem maxUxy1 : maxUxy .f32 cb cu ax ay 1 = 16777216 / 41943039 := by
+  unfold maxUxy
+  rw [vmin_two, temp10, temp11]
+  norm_num
+
+/-- the scaling factor exceeds one … -/
+theorem phi1_gt : 1 < phi .f32 cb cu ay 1 := by
+  unfold phi
+  rw [wprop_val, irrel1]
+  norm_num
+
+/-- … so the uncertainty exceeds the largest one compatible with the projection and a belief mass
+    is negative (about -0.12) -/
+theorem bI11_neg : bI .f32 cb cu ax ay 1 1 < -(1 / 10) := by
+  unfold bI post uI phi
+  rw [temp11, maxUxy1, wprop_val, irrel1]
+  simp [ax]; norm_num
+
+end SLV.C05.Witness
